@@ -1104,4 +1104,119 @@ theorem filterFields_dedupLast : ∀ (fs : Fields) (kvs : List (Bytes × J)),
   | .cons k t r, kvs => by
     simp only [filterFields, getKey_dedupLast, filterFields_dedupLast r kvs]
 
+
+/-! ### filtering does EXACTLY this (typed, exact counterpart of `filter_drops`) -/
+
+theorem dropsTL_map (R : Num → Int → Prop) (t : Ty) (f : J → J) : ∀ (xs : List J),
+    (∀ x, x ∈ xs → DropsT R t (f x) x) → DropsTL R t (xs.map f) xs
+  | [], _ => .nil t
+  | x :: r, h => .cons (h x (by simp)) (dropsTL_map R t f r (fun y hy => h y (by simp [hy])))
+
+theorem dropsTM_map (R : Num → Int → Prop) (t : Ty) (f : J → J) : ∀ (kvs : List (Bytes × J)),
+    (∀ kv, kv ∈ kvs → DropsT R t (f kv.2) kv.2) → DropsTM R t (kvs.map fun kv => (kv.1, f kv.2)) kvs
+  | [], _ => .nil t
+  | (k, v) :: r, h => .cons (h (k, v) (by simp)) (dropsTM_map R t f r (fun y hy => h y (by simp [hy])))
+
+theorem filterBase_dropsT (b : Base) (v : J) (h : (filterBase b v).2 ≠ .fatal) :
+    DropsT exactRewrite (.base b) (filterBase b v).1 v := by
+  by_cases hb : b = .int
+  · subst hb
+    cases v with
+    | null => exact .null _
+    | num n =>
+      cases n with
+      | int i =>
+        simp only [filterBase] at h ⊢
+        by_cases hr : Num.inInt64 i = true
+        · exact .intLit i hr
+        · simp [hr] at h
+      | flt m e =>
+        simp only [filterBase] at h ⊢
+        cases hi : (Num.flt m e).intValue? with
+        | none => simp [hi] at h
+        | some j =>
+          by_cases hr : Num.inInt64 j = true
+          · simp only [hr, ↓reduceIte]; exact .intRewrite _ j ⟨hi, hr⟩
+          · simp [hi, hr] at h
+    | bool _ => simp [filterBase] at h
+    | str _ => simp [filterBase] at h
+    | arr _ => simp [filterBase] at h
+    | obj _ => simp [filterBase] at h
+  · rw [filterBase_fst_of_ne_int b _ hb]
+    refine .keep _ _ ?_
+    cases b <;> simp_all [canFilter]
+
+theorem filterFields_dropsTF (R : Num → Int → Prop) (kvs : List (Bytes × J)) : ∀ (fs : Fields),
+    (∀ k t, (k, t) ∈ fs.toList → ∀ v, (filter t v).2 ≠ .fatal → DropsT R t (filter t v).1 v) →
+    (filterFields fs kvs).2 ≠ .fatal → DropsTF R fs kvs (filterFields fs kvs).1
+  | .nil, _, _ => by simp only [filterFields]; exact .nil kvs
+  | .cons k t r, ih, h => by
+    simp only [filterFields] at h ⊢
+    cases hg : getKey k kvs with
+    | none => simp [hg] at h
+    | some v =>
+      simp only [hg] at h ⊢
+      by_cases hc : canFilter t = true
+      · simp only [hc, ↓reduceIte] at h ⊢
+        rw [FErr.max_ne_fatal] at h
+        exact .filtered hg hc (ih k t (by simp [Fields.toList]) v h.1)
+          (filterFields_dropsTF R kvs r (fun k' t' hm => ih k' t' (by simp [Fields.toList, hm])) h.2)
+      · have hc' : canFilter t = false := by simpa using hc
+        simp only [hc', Bool.false_eq_true, ↓reduceIte] at h ⊢
+        exact .copied hg hc'
+          (filterFields_dropsTF R kvs r (fun k' t' hm => ih k' t' (by simp [Fields.toList, hm])) h)
+
+theorem filter_dropsT (t : Ty) : ∀ v, (filter t v).2 ≠ .fatal → DropsT exactRewrite t (filter t v).1 v := by
+  induction t using Martian.Types.Ty.induct' with
+  | base b => intro v h; simp only [filter] at h ⊢; exact filterBase_dropsT b v h
+  | user n =>
+    intro v _
+    have : (filter (.user n) v).1 = v := by simp only [filter]; split <;> rfl
+    rw [this]; exact .keep _ _ rfl
+  | arr t ih =>
+    intro v h
+    by_cases hc : canFilter t = true
+    · cases v with
+      | null => simp only [filter, hc, Bool.not_true, Bool.false_eq_true, ↓reduceIte]; exact .null _
+      | arr xs =>
+        simp only [filter, hc, Bool.not_true, Bool.false_eq_true, ↓reduceIte] at h ⊢
+        rw [worstF_ne_fatal] at h
+        exact .arr t xs _ hc (dropsTL_map _ t (fun x => (filter t x).1) xs
+          (fun x hx => ih x (h _ (List.mem_map.mpr ⟨x, hx, rfl⟩))))
+      | bool _ => simp [filter, hc] at h
+      | num _ => simp [filter, hc] at h
+      | str _ => simp [filter, hc] at h
+      | obj _ => simp [filter, hc] at h
+    · have hc' : canFilter t = false := by simpa using hc
+      have : (filter (.arr t) v).1 = v := by simp [filter, hc']
+      rw [this]; exact .keep _ _ (by simp [canFilter, hc'])
+  | tmap t ih =>
+    intro v h
+    by_cases hc : canFilter t = true
+    · cases v with
+      | null => simp only [filter, hc, Bool.not_true, Bool.false_eq_true, ↓reduceIte]; exact .null _
+      | obj kvs =>
+        simp only [filter, hc, Bool.not_true, Bool.false_eq_true, ↓reduceIte] at h ⊢
+        rw [worstF_ne_fatal] at h
+        exact .tmap t kvs _ hc (dropsTM_map _ t (fun x => (filter t x).1) kvs
+          (fun kv hkv => ih kv.2 (h _ (List.mem_map.mpr ⟨kv, hkv, rfl⟩))))
+      | bool _ => simp [filter, hc] at h
+      | num _ => simp [filter, hc] at h
+      | str _ => simp [filter, hc] at h
+      | arr _ => simp [filter, hc] at h
+    · have hc' : canFilter t = false := by simpa using hc
+      have : (filter (.tmap t) v).1 = v := by simp [filter, hc']
+      rw [this]; exact .keep _ _ (by simp [canFilter, hc'])
+  | struct n fs ih =>
+    intro v h
+    cases v with
+    | null => simp only [filter]; exact .null _
+    | obj kvs =>
+      simp only [filter] at h ⊢
+      exact .struct n fs kvs _ (filterFields_dropsTF _ kvs fs ih h)
+    | bool _ => simp [filter] at h
+    | num _ => simp [filter] at h
+    | str _ => simp [filter] at h
+    | arr _ => simp [filter] at h
+
 end Martian.Types
